@@ -104,16 +104,14 @@ pub fn intersect_cc<'a>(mut a: &'a Circle, mut b: &'a Circle) -> CircleIntersect
     } else if d < a.r - b.r + EPS {
         CircleIntersection::TouchInside(a.c + (b.c - a.c) / d * a.r)
     } else if d < a.r + b.r - EPS {
-        let line = Line::new(
-            -a.c.x * 2.0 + b.c.x * 2.0,
-            -a.c.y * 2.0 + b.c.y * 2.0,
-            a.c.x.powi(2) + a.c.y.powi(2) - b.c.x.powi(2) - b.c.y.powi(2) - a.r.powi(2) + b.r.powi(2),
-        );
-        match intersect_cl(a, &line) {
-            CircleLineIntersection::None => CircleIntersection::None,
-            CircleLineIntersection::Touch(p) => CircleIntersection::TouchOutside(p),
-            CircleLineIntersection::Intersect(u, v) => CircleIntersection::Intersect(u, v),
-        }
+        // two proper intersection points: x = distance from a's centre to the radical line along the line of
+        // centres, h = half of the common chord
+        let x = (d * d + a.r * a.r - b.r * b.r) / (2.0 * d);
+        let h = ((a.r - x) * (a.r + x)).max(0.0).sqrt();
+        let u = (b.c - a.c) / d;
+        let p = a.c + u * x;
+        let n = Point::new(-u.y, u.x);
+        CircleIntersection::Intersect(p + n * h, p - n * h)
     } else if d < a.r + b.r + EPS {
         CircleIntersection::TouchOutside(a.c + (b.c - a.c) / d * a.r)
     } else {
